@@ -1,13 +1,13 @@
 (* C11 — Class, dictionary and parser forms of a decay convert into each other losslessly.
    Proved here: the decay-mode round trip and the final-state constructor laws (unbounded).
-   The chain-level round trip  from_dict (to_dict c)  (model: chain_to_dict / build_modes in
-   Decay/ChainClass.v, including repeated decaying particles) is NOT yet a theorem: it is
-   covered by the correspondence run only (exhaustive small shapes + random chains, with the
-   implementation-level round-trip oracle as failing-input search) — C11 is partial in that respect. *)
+   The chain-level round trip  from_dict (to_dict c)  (model: chain_to_dict / build_modes in Decay/ChainClass.v, including
+   repeated decaying particles) is C11_chain_roundtrip (Decay/ChainRoundTrip.v).  Still executed only: the parser form
+   (DecFileParser.build_decay_chains output -> DecayChain.from_dict) is tied by the correspondence; that to_dict returns for
+   acyclic chains is exercised, not proved (chain_to_dict is fuelled). *)
 From Coq Require Import String List Bool ZArith QArith Arith Permutation.
 From DL Require Import Fmt.DescFormat.
 From DL Require Import Lib.Val Lib.PyDict Lib.Sort Decay.Conj Decay.ConjProofs Decay.ChainDict Decay.ChainClass
-  Decay.ChainClassProofs.
+  Decay.ChainClassProofs Decay.Flatten Decay.ChainRoundTrip.
 Import ListNotations.
 Close Scope Q_scope.
 Open Scope string_scope.
@@ -50,3 +50,30 @@ Example C11_example :
   dd_to_list (dd_of_string "K+  K- K-	pi0") = ["K+"; "K-"; "K-"; "pi0"] /\
   vdd (dd_of_list ["K-"; "pi0"; "K+"; "K-"]) = vdd [("K-", 2); ("pi0", 1); ("K+", 1)].
 Proof. vm_compute. split; reflexivity. Qed.
+
+(* chain level: what to_dict writes, from_dict reads back as the chain with the same mother whose decays are the part of the
+   original decays reachable from the mother (every registered particle is a decaying particle of the original; its decaying
+   daughters are registered too), each mode being the DecayMode round trip RT md = mode_of_cm (mode_to_cm md) of the original's —
+   also when a decaying particle occurs several times in the tree (F4). *)
+Theorem C11_chain_roundtrip : forall decays fuel m d, chain_to_dict fuel decays m = Some d ->
+  exists decays', chain_from_dict d = COk {| c_mother := m; c_decays := decays' |}
+    /\ (forall p md', pd_get p decays' = Some md' ->
+          exists md, pd_get p decays = Some md /\ md' = mode_of_cm (mode_to_cm md)
+                     /\ forall x, In x (dd_to_list (m_fs md)) -> pd_mem x decays = true -> pd_mem x decays' = true)
+    /\ pd_mem m decays' = true.
+Proof.
+  intros decays fuel m d H. destruct (chain_roundtrip decays fuel m d H) as [decays' [E [HI Hm]]].
+  exists decays'. split; [exact E|split; [|exact Hm]]. intros p md' Hp. destruct (HI p md' Hp) as [md [E1 [E2 C]]].
+  exists md. rewrite <- RT_mode_roundtrip. auto.
+Qed.
+Print Assumptions C11_chain_roundtrip.
+
+Definition ex_decays : pdict mode :=
+  [("pi0", mk_mode (98 # 100) (dd_of_list ["gamma"; "gamma"]) []);
+   ("D0", mk_mode (1 # 10) (dd_of_list ["pi0"; "K_S0"; "pi0"]) [("model", VStr "PHSP")]);
+   ("K_S0", mk_mode (7 # 10) (dd_of_list ["pi+"; "pi-"]) []);
+   ("unrelated", mk_mode 1 (dd_of_list ["x"]) [])].
+Example C11_chain_example :
+  exists d, chain_to_dict 5 ex_decays "D0" = Some d /\
+            match chain_from_dict d with COk c => map fst (c_decays c) = ["K_S0"; "pi0"; "D0"] | CErr _ => False end.
+Proof. eexists. split; [vm_compute; reflexivity|]. vm_compute. reflexivity. Qed.
